@@ -141,10 +141,33 @@ func checkC11(c *Ctx) {
 	r := c.Rep
 	p := c.Prog
 	r.Explain = "Structural clauses of the compound-packet rules, decided by evaluating Validate / CNAME / Marshal / Unmarshal of CompoundPacket with the constant-propagation evaluator for every dynamic type of the first member and of the later members and every SDES item type code 0..8 (lengths and all other data Unknown, both branch outcomes followed), plus def-use checks on the SSA. Grammar equivalence for all sequences is NOT decided."
-	r.RuleText = "C11-FIRST: Validate rejects (errBadFirstPacket) exactly the first-member types other than *SenderReport/*ReceiverReport. C11-SCAN: for later members: *ReceiverReport continues, *SourceDescription ends the scan (nil only if an item type equals SDESCNAME=1, else errMissingCNAME), any other type returns errPacketBeforeCNAME; falling off the end returns errMissingCNAME; the scan loop carries no state between members. C11-GATE: Marshal returns bytes only after Validate returned nil; Unmarshal returns nil only as the result of Validate on the stored list. C11-CNAME: CNAME() returns the Text of the item whose Type compared equal to SDESCNAME, returned from inside the scan (first match); an error returned together with the text can only stem from a member that is neither *SourceDescription nor *ReceiverReport, at which Validate fails."
+	r.RuleText = "C11-FIRST: Validate rejects (errBadFirstPacket) exactly the first-member types other than *SenderReport/*ReceiverReport. C11-SCAN: for later members: *ReceiverReport continues, *SourceDescription ends the scan (nil only if an item type equals SDESCNAME=1, else errMissingCNAME), any other type returns errPacketBeforeCNAME; falling off the end returns errMissingCNAME; the scan loop carries no state between members. C11-GATE: Marshal returns bytes only after Validate returned nil; Unmarshal returns nil only as the result of Validate on the stored list. C11-CNAME: CNAME() returns the Text of the item whose Type compared equal to SDESCNAME, returned from inside the scan (first match); C11-AGG: CompoundPacket.DestinationSSRC abstracts to the list of member 0 (sequence provenance of C10) and CompoundPacket.MarshalSize is an accumulator over every member (shape rule of C05). An error returned together with the text can only stem from a member that is neither *SourceDescription nor *ReceiverReport, at which Validate fails."
 	r.Trusted = []string{"go/ssa", "checker/pe evaluator", "type names of the 16 Packet implementations"}
 		r.NotCov("sequences whose acceptance depends on interactions between members beyond the per-member decision (the scan loop of Validate is checked to carry no state; the one variable CNAME() carries, its error, is decided by CNAME/error-only-after-a-foreign-member)")
-	r.NotCov("DestinationSSRC (C10) and MarshalSize (C05) aggregation clauses are decided by those properties' checks")
+	// ---- C11-AGG: DestinationSSRC is the first member's, MarshalSize the sum over all members
+	if ds, _ := p.Method("CompoundPacket", "DestinationSSRC"); ds == nil {
+		r.Fatalf("unresolved anchor: CompoundPacket.DestinationSSRC")
+	} else {
+		r.Anchor("C11-AGG", "CompoundPacket.DestinationSSRC")
+		got, errs := c10SeqOf(ds)
+		want := append([]string{}, c10Spec["CompoundPacket"]...)
+		sort.Strings(want)
+		if len(errs) > 0 {
+			r.Unk("C11-AGG", "CompoundPacket.DestinationSSRC/first-member", p.Pos(ds.Pos()), "cannot abstract the result: "+strings.Join(errs, "; "))
+		} else {
+			r.Check(strings.Join(got, " | ") == strings.Join(want, " | "), "C11-AGG", "CompoundPacket.DestinationSSRC/first-member", p.Pos(ds.Pos()),
+				"returns ["+strings.Join(got, " | ")+"]: nothing for an empty compound, else exactly the list of member 0",
+				"returns ["+strings.Join(got, " | ")+"], the property says ["+strings.Join(want, " | ")+"] (the first member's list and nothing else)")
+		}
+	}
+	if ms := p.Func("CompoundPacket.MarshalSize"); ms == nil {
+		r.Fatalf("unresolved anchor: CompoundPacket.MarshalSize")
+	} else {
+		r.Anchor("C11-AGG", "CompoundPacket.MarshalSize")
+		ok, why := accumulatorOverMembers(ms, "MarshalSize", false)
+		r.Check(ok, "C11-AGG", "CompoundPacket.MarshalSize/sum-over-members", p.Pos(ms.Pos()), why, why)
+	}
+	r.Floor("C11-AGG", 2)
 
 	val := p.Func("CompoundPacket.Validate")
 	cname := p.Func("CompoundPacket.CNAME")
